@@ -592,6 +592,39 @@ impl SerializableValue {
         use crate::expressions::pairs_to_expr;
         use crate::parser::get_pairs;
 
+        // Function sources are written as `(<parameters>) => <body>`, where the body is a
+        // complete expression. Read as one expression, a body whose top-level operator is
+        // via / into / where would end the lambda before that operator (`(x) => l via f` is
+        // `((x) => l) via f`), so the parameters and the body are parsed separately first.
+        if let Some(arrow) = source.find("=>") {
+            let (params, body) = (&source[..arrow], &source[arrow + 2..]);
+            let parse_expr = |text: &str| -> Option<crate::ast::SpannedExpr> {
+                let mut statements = get_pairs(text)
+                    .ok()?
+                    .filter(|pair| pair.as_rule() == crate::parser::Rule::statement);
+                let statement = statements.next()?;
+                if statements.next().is_some() {
+                    return None;
+                }
+                let inner = statement.into_inner().next()?;
+                if inner.as_rule() != crate::parser::Rule::expression {
+                    return None;
+                }
+                pairs_to_expr(inner.into_inner()).ok()
+            };
+            if let Some(crate::ast::Expr::Lambda { args, .. }) =
+                parse_expr(&format!("{} => null", params)).map(|expr| expr.node)
+                && let Some(body) = parse_expr(body)
+            {
+                return Ok(SerializableLambdaDef {
+                    name: None,
+                    args,
+                    body: crate::ast_to_source::expr_to_source(&body),
+                    scope: None, // Functions from JSON have no scope - they're already inlined
+                });
+            }
+        }
+
         // Parse the source as an expression
         let pairs = get_pairs(source)?;
 
